@@ -12,11 +12,13 @@ fn sequences(n: usize, len: usize) -> Vec<Vec<usize>> { let mut out = vec![vec![
 
 pub fn run(ctx: &Ctx) -> i32 {
     let th = ctx.tier.thorough();
-    let payloads = vec![Envelope::new("pl"), Envelope::new("pl").add_assertion("a", "b"), Envelope::new("pl").wrap_envelope(), Envelope::new_assertion("pp", "po"), Envelope::new("pl2").elide(), Envelope::new("pl").wrap_envelope().wrap_envelope()];
+    let payloads = vec![Envelope::new("pl"), Envelope::new("pl").add_assertion("a", "b"), Envelope::new("pl").wrap_envelope(), Envelope::new_assertion("pp", "po"), Envelope::new("pl2").elide(), Envelope::new("pl").wrap_envelope().wrap_envelope(), Envelope::new(f64::NAN), Envelope::null().add_assertion("n", Envelope::null())];
     let vendors = ["v1", "v2"]; let conf = [None, Some("c1"), Some("c2")];
     let mut atts: Vec<Att> = vec![]; for (i, _) in payloads.iter().enumerate() { for v in vendors { for c in conf { atts.push((i, v, c)) } } }
+    // value-dependent corners: empty strings, case and padding differences (filters must compare whole strings exactly)
+    atts.extend([(0usize, "", None), (0, "v1", Some("")), (1, "V1", Some("C1")), (0, "v1 ", Some("c1 ")), (0, "", Some(""))]);
     let att_env: Vec<Envelope> = atts.iter().map(|(pi, v, c)| Envelope::new_attachment(payloads[*pi].clone(), v, *c)).collect();
-    let bases: Vec<Envelope> = families::plain(3).iter().chain(families::nsn().iter().take(2)).map(|m| bind::build(m, 0)).collect();
+    let bases: Vec<Envelope> = families::plain(3).iter().chain(families::nsn().iter().take(2)).chain(families::valued_few().iter().step_by(7)).map(|m| bind::build(m, 0)).collect();
     let maxn = 3;
     // multisets as sequences (every order, with repetition); thorough length 3 over a reduced attachment pool
     let mut seqs: Vec<Vec<usize>> = vec![vec![]];
@@ -66,7 +68,7 @@ pub fn run(ctx: &Ctx) -> i32 {
                     }
                 }
                 if let Ok(Ok(a)) = catch(|| Attachments::try_from_envelope(&e)) { for d in &ed { if a.get(&Digest::from_data(*d)).is_none() { acc.viol("C19|Attachments::try_from_envelope|missing", "container misses an attachment", cid("container"), json!({})) } } }
-                for fv in [None, Some("v1"), Some("v2"), Some("v3")] { for fc in [None, Some("c1"), Some("c2"), Some("c3")] {
+                for fv in [None, Some("v1"), Some("v2"), Some("v3"), Some(""), Some("V1")] { for fc in [None, Some("c1"), Some("c2"), Some("c3"), Some(""), Some("C1")] {
                     acc.inc("filter_queries");
                     let mut expf: Vec<[u8; 32]> = seq.iter().filter(|i| { let (_, v, c) = atts[**i]; fv.map_or(true, |x| x == v) && fc.map_or(true, |x| Some(x) == c) }).map(|i| bind::dg(&att_env[*i])).collect(); expf.sort(); expf.dedup();
                     let cidf = || cid(&format!("filter-{fv:?}-{fc:?}"));
@@ -82,7 +84,7 @@ pub fn run(ctx: &Ctx) -> i32 {
                 acc.nontrivial(&(bi, seq.clone()));
             }
         }
-        if bi == (ctx.seed as usize % nbases) { acc.sample(json!({"base": crate::report::ff(&base), "attachment_pool": atts.len(), "sequences": seqs.len(), "filters": 16})) }
+        if bi == (ctx.seed as usize % nbases) { acc.sample(json!({"base": crate::report::ff(&base), "attachment_pool": atts.len(), "sequences": seqs.len(), "filters": 36})) }
         acc
     }).reduce(Acc::new, Acc::merge);
     let mut acc = acc;
